@@ -376,7 +376,9 @@ impl Bitstr {
     }
 
     pub fn detach(self) -> Bitstr {
-        if Rc::strong_count(&self.data) == 1 {
+        // the copy below is left-aligned: keep a sole owner as it is only if it
+        // is left-aligned too, so that sharing the buffer is not observable
+        if Rc::strong_count(&self.data) == 1 && self.range.start == 0 {
             self
         } else if self.len() == 0 {
             Bitstr::new()
